@@ -33,7 +33,7 @@ func init() {
 	register(&Prop{
 		ID:       "C17",
 		Category: "model_checking",
-		Rule: "(a) scenarios of 3 threads (real goroutines under a hand-off scheduler) x 3 operations each (4 in the thorough tier: 34650 interleavings per scenario) on DISTINCT instances chosen to touch the same package-level tables (fixed-Huffman and dynamic decodes, level-1 / level-2 / Huffman-only compression, 4 KiB window, gzip, zlib with dictionary, a Writer closed, Reset and reused next to Writers constructed after its Close, a flate and a gzip Reader closed, Reset and reused next to Readers constructed after their Close): ALL interleavings of the operations (1680 per scenario) at every acceleration level; oracle: every instance's bytes and errors equal its solo run; " +
+		Rule: "(a) scenarios of 3 threads (real goroutines under a hand-off scheduler) x 3 operations each (4 in the thorough tier: 34650 interleavings per scenario) on DISTINCT instances chosen to touch the same package-level tables (fixed-Huffman and dynamic decodes, level-1 / level-2 / Huffman-only compression, 4 KiB window, gzip, zlib with dictionary, a Writer closed, Reset and reused next to Writers constructed after its Close, a flate and a gzip Reader closed, Reset and reused next to Readers constructed after their Close, three gzip Writers with Latin-1 header strings): ALL interleavings of the operations (1680 per scenario) at every acceleration level; oracle: every instance's bytes and errors equal its solo run; " +
 			"(b) global-state invariant in every explored state: a snapshot over EVERY package-level variable of the six fastgo packages (registration code generated from /repo's current sources with go/parser, injected with go build -overlay) is unchanged since initialisation (the baseline is taken after one solo warm-up run of every instance, so tables built lazily on first use do not count); " +
 			"(c) complement, sampling not enumeration: the same bodies free-running under the race detector, 16 goroutines x rounds x GOMAXPROCS {1,2,16}; non-trivial = every execution (each has 9 operations on 3 instances)",
 		Assumptions: []string{"scheduling points are the API calls: fastgo has no locks, channels or atomics, so interleavings inside a call are covered only by the global-state invariant and the sampled race pass",
@@ -300,6 +300,10 @@ func c17Scenario(id int, d *c17data) []*c17inst {
 		return []*c17inst{c17Writer(WK{Kind: "flate4k", Level: 2}, d.text70[:20000], d.r370[:20000]), c17Reader(RK{Kind: "zlib", Dict: dict20}, "dict", d.zdict), c17Reader(RK{Kind: "gzip", Multi: true}, "two-members", d.gz2)}
 	case 3:
 		return []*c17inst{c17Writer(WK{Kind: "flate", Level: 1}, d.text70, d.text70[:10000]), c17Writer(WK{Kind: "flate", Level: 1}, d.r370, d.r370[:10000]), c17Reader(RK{Kind: "flate"}, "std70", d.std70)}
+	case 7:
+		// gzip Writers whose header strings need converting to Latin-1 (the header goes out lazily, inside the first call)
+		return []*c17inst{c17Writer(WK{Kind: "gzip", Level: 1, Hdr: true}, d.text70[:3000], d.r370[:3000]), c17Writer(WK{Kind: "gzip", Level: -2, Hdr: true}, d.r370[:3000], d.text70[:3000]),
+			c17Writer(WK{Kind: "gzip", Level: 6, Hdr: true}, d.text70[:2000], d.text70[:2000])}
 	case 5:
 		// a Reader that is closed, Reset and used again next to Readers constructed after its Close
 		return []*c17inst{c17ReusedReader(false, "fixedA-then-dyn70K", d.fixedA, d.dyn), c17Reader(RK{Kind: "flate"}, "std70", d.std70), c17Reader(RK{Kind: "gzip", Multi: true}, "two-members", d.gz2)}
@@ -313,7 +317,7 @@ func c17Scenario(id int, d *c17data) []*c17inst {
 	}
 }
 
-const c17Scenarios = 7
+const c17Scenarios = 8
 
 func snapDiff(a, b map[string]uint64) string {
 	var out []string
